@@ -12,7 +12,9 @@ SPEC = {
                      "the receive path is the C02 model N2k/Model/Rx.lean, imported unchanged and composed in N2k/Model/HandlersRx.lean "
                      "(per frame: Rx.rx, then RunMessageHandlers for the message it completes); the engine rebuilds every injected "
                      "frame byte for byte and the composed model decides completion (single frames, fast packets intact/damaged, "
-                     "lone TP.CM/TP.DT, slot use of a BAM); only the completion of a TP payload (C10 receiver) is an input event"],
+                     "lone TP.CM/TP.DT, slot use of a BAM); only the completion of a TP payload (C10 receiver) is an input (annotation of the last TP.DT frame)",
+                     "CAN driver queue, ParseMessages reading at most 20 frames per call and the ForwardMode bits (one Bool per bit) "
+                     "are part of the composed model; the harness's hold/poll/mode/tp ops exercise them on the real code"],
     'assumptions': ["handlers are only used while alive and constructed where no live object is (C++ object lifetime rules)",
                     "a handler's PGN is not changed while attached; bus objects outlive their handlers",
                     "HandleMsg / the plain callback do not attach, detach or destroy handlers while a message is dispatched",
@@ -28,7 +30,9 @@ MANIFEST = {
             "iff set; END TO END over histories of client operations and received FRAMES (receive model of C02 composed with "
             "the handler list): event by event a call happens exactly when the receive model completes a message, with exactly "
             "that message, to exactly the matching handlers, all-PGN handlers first; TP.CM/TP.DT frames never dispatch "
-            "(completion of a TP payload is the only input). Correspondence: real tMsgHandler subclasses on two real tNMEA2000 objects (one listen-only, one active "
+            "(completion of a TP payload is the only input); a poll hands the <=20 oldest waiting frames to the receive path and "
+            "removes no other frame (bursts are delivered by later polls); forwarding options have no influence on handling. Harness "
+            "adds bursts of 21..75 waiting frames, TP payloads 9..223 bytes by BAM/RTS, handle-only-known x forwarding options. Correspondence: real tMsgHandler subclasses on two real tNMEA2000 objects (one listen-only, one active "
             "node) fed CAN frames through ParseMessages under ASan, compared call by call (ids in call order) with the model and "
             "with a multiset reference; exhaustive over all op sequences of bounded length on 2-4 handlers with equal/distinct/zero "
             "PGNs and 2 buses, random long histories on 8 handlers with every PGN class of message; multi-frame fast packets, intact "
